@@ -617,6 +617,10 @@ func (x *Exec) doMakeSlice(fr *Frame, in *ssa.MakeSlice, reach *Term, st *State)
 			env := x.baseEnv(fr, st)
 			l := env.eval(lim.Expr, i64Hint()).term()
 			x.vc.oblige("make", fmt.Sprintf("make#%d.limit", k), reach, bvCmp("bvsle", ln, l), x.pos(in.Pos()), "allocation bounded by "+lim.Src)
+			if in.Cap != nil {
+				cp := x.toIdx(x.get(fr, in.Cap))
+				x.vc.oblige("make", fmt.Sprintf("make#%d.caplimit", k), reach, mkAnd(bvCmp("bvsle", mkBVu(0, 64), cp), bvCmp("bvsle", cp, l)), x.pos(in.Pos()), "capacity bounded by "+lim.Src)
+			}
 		}
 	}
 	el := in.Type().Underlying().(*types.Slice).Elem()
